@@ -13,7 +13,7 @@ import struct
 
 from mc import pattern
 from mc.models import DATA, HOLE, ZERO, GuestDisk
-from mc.vfile import Image
+from mc.vfile import Image, slot_range
 
 HDR = "<64sIIIII256sIIIIIIIQIIII16s16s16s16s"
 SIGNATURE = 0xBEDA107F
@@ -49,7 +49,7 @@ def build(states, slots, block_size, disk_size=None, blocks_offset=512, data_off
     for i in range(n):
         img.field(f"map[{i}]", blocks_offset + 4 * i, 4, "<", "table")
     inv = {p: i for i, (st, p) in enumerate(zip(states, slots)) if st == DATA}
-    for p in range(nslots + (1 if tail_slack else 0)):
+    for p in slot_range(0, nslots + (1 if tail_slack else 0), used):
         off = data_offset + p * block_size
         if p in inv:
             img.put_pattern(off, block_size, layer, inv[p] * block_size)
